@@ -198,7 +198,17 @@ def format_code(
             for funcdef in core.filter_nodes(node.body, fdef_types)
         }
         assignments = {node.id for node in parsing.iter_assignments(module)}
-        preserve = set(preserve) | defs | class_funcs | assignments
+        # The members of those classes may not be renamed either
+        class_members = {
+            funcdef.name
+            for node in core.filter_nodes(module.body, ast.ClassDef)
+            for funcdef in core.filter_nodes(node.body, fdef_types)
+        } | {
+            name.id
+            for node in core.filter_nodes(module.body, ast.ClassDef)
+            for name in parsing.iter_assignments(node)
+        }
+        preserve = set(preserve) | defs | class_funcs | class_members | assignments
 
     if minimum_indent == 0:
         source = fixes.add_missing_imports(source)
